@@ -23,7 +23,7 @@ ASSUMPTIONS = ["Redis and RabbitMQ are wire-level fakes (RabbitMQ rule R2: per-m
                "the AMQP fake accepts per-message expirations of any size; a real RabbitMQ server is believed to refuse values above 2^32-1 ms (49.7 days) with a channel error, "
                "so what repid does for longer delays on RabbitMQ is judged here only as far as the fake goes (not verifiable offline)"]
 EVAL_COUNTER = "deliveries_judged"
-REQUIRED = ["deliveries_judged", "due_past", "due_subsecond", "due_seconds", "due_far", "visibility_probes", "multi_scenarios", "peek_scenarios", "peek_returns", "crowd_scenarios", "timezone_offset_runs", "busy_consumer_scenarios", "far_future_probes", "messages_put_back_with_a_new_time", "neighbour_queue_scenarios"]
+REQUIRED = ["deliveries_judged", "due_past", "due_subsecond", "due_seconds", "due_far", "visibility_probes", "multi_scenarios", "peek_scenarios", "peek_returns", "crowd_scenarios", "timezone_offset_runs", "busy_consumer_scenarios", "far_future_probes", "messages_put_back_with_a_new_time", "neighbour_queue_scenarios", "shared_due_instant_scenarios"]
 CASE_TIMEOUT = 120
 
 OFFSETS = [-5.0, -0.000001, 0.0004, 0.3, 0.9995, 1.0, 1.5, 5.0, 3600.0, 2592000.0]
@@ -75,6 +75,11 @@ def gen_cases(tier, seed):
         # delivered after a bounded number of further deliveries
         for backlog in (1, 3):
             cases.append({"type": "busy", "kind": kind, "backlog": backlog, "seed": rnd.randrange(10**6)})
+        # two delayed messages of different topics share one due instant; a consumer that serves only one of the topics takes its
+        # own, a consumer of the other topic comes later: its message is still there
+        if kind != "rabbit":  # (there a foreign message in front blocks by design: C11's finding)
+            for order in ("own_first", "other_first"):
+                cases.append({"type": "shared_due", "kind": kind, "order": order, "past": order == "own_first", "seed": rnd.randrange(10**6)})
         # two queues in one process: a delayed message of a quiet queue becomes due while its consumer waits idle and the
         # consumer of the other queue is kept busy by steady traffic
         for due in ((1.3, 2.6) if tier == "quick" else (0.4, 1.3, 2.6, 5.05)):
@@ -412,6 +417,61 @@ async def busy(loop, case, out, stats, fps):
         rig.close()
 
 
+async def shared_due(loop, case, out, stats, fps):
+    from repid.data._parameters import DelayProperties
+    from repid.message import MessageCategory
+    from rv.rigs import Rig, key_of
+
+    kind = case["kind"]
+    rig = Rig(kind, loop, latency=None, seed=case["seed"])
+    try:
+        conn = rig.make_connection("p1")
+        await conn.connect()
+        mb = conn.message_broker
+        await mb.queue_declare("q")
+        P = mb.PARAMETERS_CLASS
+        loop.jump(1.37)
+        T = datetime.now() + timedelta(seconds=-2.0 if case["past"] else 1.25)
+        names = ["own", "other"] if case["order"] == "own_first" else ["other", "own"]
+        for n_ in names:
+            # (a retry / a rescheduled run: the stored scheduled time counts even when it is already over)
+            await mb.enqueue(key_of(conn, f"m-{n_}", f"t-{n_}", "q"), "p", P(delay=DelayProperties(next_execution_time=T), retries=P().retries.__class__(max_amount=3, already_tried=1)))
+        A = mb.get_consumer("q", ["t-own"], None, MessageCategory.NORMAL)
+        await A.start()
+        got = None
+        try:
+            key, _, _ = await asyncio.wait_for(A.consume(), L_BOUND + 3.0)
+            got = key.id_
+            await mb.ack(key)
+        except asyncio.TimeoutError:
+            pass
+        await asyncio.sleep(1.5)  # A keeps polling for a while, finds nothing of its own
+        await A.finish()
+        B = mb.get_consumer("q", ["t-other"], None, MessageCategory.NORMAL)
+        await B.start()
+        got2 = None
+        try:
+            key, _, _ = await asyncio.wait_for(B.consume(), L_BOUND)
+            got2 = key.id_
+            await mb.ack(key)
+        except asyncio.TimeoutError:
+            pass
+        await B.finish()
+        stats["shared_due_instant_scenarios"] += 1
+        stats["deliveries_judged"] += 2
+        fps.add(f"{kind}/shared_due/{case['order']}/{int(case['past'])}")
+        ctx = "two-topics-one-due-instant"
+        if got != "m-own":
+            out.append(V("late", kind, ctx + "/own", f"consumer of topic t-own got {got!r} within {L_BOUND}s after the shared due instant"))
+        if got2 != "m-other":
+            out.append(V("late", kind, ctx, f"two delayed messages (topics t-own, t-other) due at the same instant {T}; after a consumer of t-own alone had taken its message, a consumer of t-other got {got2!r} in {L_BOUND}s; "
+                                             f"state of m-other: {rig.snapshot().get('m-other')}"))
+        await conn.disconnect()
+        stats["unknown_server_commands"] += rig.unknown_commands()
+    finally:
+        rig.close()
+
+
 async def neighbour(loop, case, out, stats, fps):
     from repid.data._parameters import DelayProperties
     from repid.message import MessageCategory
@@ -721,6 +781,10 @@ def run_case(case):
         res = vl.run(lambda loop: veryfar(loop, case, out, stats, fps), max_steps=6_000_000, seed=case["seed"])
         if res.exc is not None:
             out.append(V("harness_or_api_error", case["kind"], "veryfar", f"{type(res.exc).__name__}: {res.exc}"))
+    elif case["type"] == "shared_due":
+        res = vl.run(lambda loop: shared_due(loop, case, out, stats, fps), max_steps=6_000_000, seed=case["seed"])
+        if res.exc is not None:
+            out.append(V("harness_or_api_error", case["kind"], "shared_due", f"{type(res.exc).__name__}: {res.exc}"))
     elif case["type"] == "neighbour":
         res = vl.run(lambda loop: neighbour(loop, case, out, stats, fps), max_steps=6_000_000, seed=case["seed"])
         if res.exc is not None:
